@@ -416,6 +416,95 @@ def awaited_same_key_probe(ctx: Ctx) -> None:
             flush(app)
 
 
+def two_tasks_probe(ctx: Ctx) -> None:
+    """concurrency control is per TASK: an invocation of another task that happens to carry the same argument names and values -
+    RUNNING or PENDING - must not block this task's invocation"""
+    from pynenc.conf.config_task import ConcurrencyControlType as C
+
+    for kind in ("mem", "sqlite"):
+        for mode in (C.KEYS, C.ARGUMENTS, C.TASK):
+            for hold in ("pending", "running"):
+                app = make_app(kind, ctx.tmp, app_id=f"c06two{kind}{mode.value}{hold}{ctx.rng.randrange(10**6)}")
+                opts: dict[str, Any] = {"running_concurrency": mode}
+                if mode == C.KEYS:
+                    opts["key_arguments"] = ("k",)
+                tx = app.task(T.cc_body, **opts)
+                ty = app.task(T.keyed, **opts)
+                o = app.orchestrator
+                y = ty("a", "d", "e")
+                list(o.get_invocations_to_run(1, rctx("rB")))
+                if hold == "running":
+                    o.set_invocation_status(y.invocation_id, trs_status("running"), rctx("rB"))
+                x = tx("a", "d", "e")
+                got = [g.invocation_id for g in o.get_invocations_to_run(2, rctx("rA"))]
+                st = o.get_invocation_status(x.invocation_id).value
+                ctx.count()
+                ctx.distinct((kind, "two-tasks", mode.value, hold))
+                if x.invocation_id not in got or st != "pending":
+                    ctx.report(f"blocked-by-another-task[{kind}]", f"[{kind}] an invocation of ANOTHER task with the same arguments is {hold}; this task's invocation (mode {mode.value}) was polled: "
+                                                                  f"handed out {x.invocation_id in got}, status {st} - tasks must not block one another",
+                               {"backend": kind, "scenario": "two-tasks", "mode": mode.value, "other_is": hold})
+                flush(app)
+
+
+def second_process_probe(ctx: Ctx) -> None:
+    """the holder of a key and the poller are DIFFERENT processes on one SQLite file (what a deployment looks like): a fresh interpreter
+    with its own hash salt submits an invocation with the key this process holds RUNNING, polls and starts what it is handed.  Short
+    keys, long keys (a few hundred characters, still inline) and a second non-key argument."""
+    import json
+    import os
+    import subprocess
+    import sys
+    from concurrent.futures import ThreadPoolExecutor
+
+    from pynenc.conf.config_task import ConcurrencyControlType as C
+
+    envv = dict(os.environ)
+    envv["PYTHONPATH"] = os.pathsep.join(p for p in sys.path if p)
+    cases = [("keys", ["k"], ["a", "d", "e"]), ("keys", ["k"], ["K" * 226, "d", "e"]), ("arguments", [], ["a" * 300, "b" * 140, "e"]),
+             ("keys", ["k", "v"], ["k" * 129, "v" * 1000, "e"]), ("task", [], ["a", "d", "e"])]
+    if ctx.quick:
+        cases = cases[:3]
+
+    def one(n: int, mode: str, keys: list, args: list) -> dict:
+        app_id = f"c06proc{n}x{ctx.rng.randrange(10**6)}"
+        db = os.path.join(ctx.tmp, app_id + ".db")
+        app = make_app("sqlite", ctx.tmp, app_id, db=db)
+        opts: dict[str, Any] = {"running_concurrency": C(mode), "reroute_on_concurrency_control": False}
+        if keys:
+            opts["key_arguments"] = tuple(keys)
+        t = app.task(T.cc_body, **opts)
+        held = t(*args)
+        o = app.orchestrator
+        got = list(o.get_invocations_to_run(1, rctx("rA")))
+        o.set_invocation_status(held.invocation_id, trs_status("running"), rctx("rA"))
+        envc = dict(envv, PYTHONHASHSEED=str(11 + n))
+        p = subprocess.run([sys.executable, "-m", "harness.c06_child", json.dumps({"db": db, "tmp": ctx.tmp, "app_id": app_id, "mode": mode, "keys": keys, "reroute": False, "args": args})],
+                           capture_output=True, text=True, env=envc, timeout=120)
+        lines = [ln for ln in p.stdout.strip().splitlines() if ln.startswith("{")]
+        d = json.loads(lines[-1]) if lines else {"crashed": (p.stderr or p.stdout)[-300:]}
+        d["held"] = held.invocation_id
+        d["got"] = len(got)
+        return d
+
+    with ThreadPoolExecutor(max_workers=5) as ex:
+        futs = [(c, ex.submit(one, n, *c)) for n, c in enumerate(cases)]
+        res = [(c, f.result()) for c, f in futs]
+    for (mode, keys, args), d in res:
+        ctx.count()
+        ctx.distinct(("second-process", mode, tuple(keys), tuple(len(a) for a in args)))
+        rep = {"scenario": "second-process", "mode": mode, "keys": keys, "arg_lengths": [len(a) for a in args]}
+        if "crashed" in d:
+            ctx.obligation("the second-process probe of C06 ran", False, str(d)[:300])
+            continue
+        st = d["statuses"]
+        running = [i for i, v in st.items() if v == "running"]
+        if len(running) > 1 or st.get(d["submitted"]) in ("pending", "running"):
+            ctx.report("two-running-same-key[sqlite]:second-process",
+                       f"[sqlite] this process holds an invocation RUNNING (mode {mode}, key arguments {keys}, argument lengths {[len(a) for a in args]}); another process submitted the same "
+                       f"key, polled and started what it got: the second invocation is {st.get(d['submitted'])}, {len(running)} invocations RUNNING", rep)
+
+
 def trs_status(name: str):  # type: ignore[no-untyped-def]
     from pynenc.invocation.status import InvocationStatus
 
@@ -523,6 +612,8 @@ def run(ctx: Ctx) -> None:
         ctx.obligation("correspondence: submissions, polls, worker starts, finishes on Mem and SQLite == CC model", nd == 0, f"{nd} disagreements")
         two_paths_probe(ctx)
         awaited_same_key_probe(ctx)
+        second_process_probe(ctx)
+        two_tasks_probe(ctx)
         two_pollers_probe(ctx)
     finally:
         clock.uninstall()
